@@ -17,6 +17,7 @@ import (
 	"strings"
 	"sync"
 	"testing"
+	"time"
 )
 
 type vfC03Tap struct {
@@ -565,8 +566,13 @@ func TestVfC03Session(t *testing.T) {
 			return false
 		}
 		skipMeta := g.chance(0.5)
+		serialDefault := g.chance(0.3)
+		defPage := 1 // 1: keep the default (5000)
+		if g.chance(0.2) {
+			defPage = g.pick(0, -1, -100)
+		}
 		cql := string(vfC03B(g.text(g.pick(3, 5, 8))))
-		sess, _, err := vfSingleNodeSession(node, v, func(cfg *ClusterConfig) {
+		mod := func(cfg *ClusterConfig) {
 			if configured {
 				cfg.Compressor = vfC03Comp{}
 			}
@@ -576,13 +582,33 @@ func TestVfC03Session(t *testing.T) {
 			cfg.Keyspace = s.ks
 			cfg.DisableSkipMetadata = !skipMeta
 			cfg.CQLVersion = cql
-			if g.chance(0.2) {
-				cfg.PageSize = g.pick(0, -1, -100)
+			if defPage != 1 {
+				cfg.PageSize = defPage
 			}
-			if g.chance(0.3) {
+			if serialDefault {
 				cfg.SerialConsistency = LocalSerial
 			}
-		})
+			// no verdict depends on the clock: generous timeouts for a loaded machine
+			cfg.Timeout = 20 * time.Second
+			cfg.ConnectTimeout = 20 * time.Second
+		}
+		var sess *Session
+		var err error
+		for try := 0; try < 3; try++ { // set-up is retried
+			s.tap = &vfC03Tap{}
+			if sasl != nil {
+				sasl.mu.Lock()
+				sasl.returned, sasl.chal, sasl.round = nil, nil, 0
+				sasl.mu.Unlock()
+			}
+			amu.Lock()
+			answered = map[int]int{}
+			amu.Unlock()
+			if sess, _, err = vfSingleNodeSession(node, v, mod); err == nil {
+				break
+			}
+			node.CloseAll()
+		}
 		if err != nil {
 			noconn++
 			node.CloseAll()
